@@ -99,7 +99,7 @@ Proof.
   - unfold do_change in H. repeat break_hyp H; inv H; reflexivity.
   - inv H. apply fold_index. intros; apply update_one_index.
   - unfold do_allocrs in H. repeat break_hyp H; inv H; reflexivity.
-  - unfold do_commit in H. repeat break_hyp H; inv H; reflexivity.
+  - unfold do_commit, do_commit_unchecked in H. repeat break_hyp H; inv H; reflexivity.
   - unfold do_rshosts in H. repeat break_hyp H; inv H; reflexivity.
   - unfold do_updatesc in H. repeat break_hyp H; inv H; try reflexivity. eapply put_blob_index; eauto.
   - inv H; reflexivity.
